@@ -5,14 +5,15 @@ tools/validate_seed.sh runs) says: demo passes on the clean tree, fails with the
 import json, os, shutil, sys
 here = os.path.dirname(os.path.abspath(__file__))
 sys.path.insert(0, here)
-from seed_results import SEEDS, OBSOLETE  # noqa: E402
+from seed_results import SEEDS, SEEDS_B, OBSOLETE  # noqa: E402
 val = json.load(open(os.path.join(here, "seed_validation.json")))
 root = os.path.join(here, "..", "seeded")
 n = 0
-for sid, (prop, rel, needs, result) in sorted(SEEDS.items()):
+ALL = [(k, v, "/work/seed") for k, v in SEEDS.items()] + [(k, v, "/work/seedB") for k, v in SEEDS_B.items()]
+for sid, (prop, rel, needs, result), base in sorted(ALL):
     v = val.get(sid)
-    src = os.path.join("/work/seed", rel)
-    if not v or not v.get("ok") or result == "PENDING" or not os.path.isdir(src):
+    src = os.path.join(base, rel)
+    if not v or not v.get("ok") or result.endswith("PENDING") or result == "PENDING" or not os.path.isdir(src):
         print("skip", sid, "(not validated yet)" if not (v and v.get("ok")) else "(result pending)")
         continue
     dst = os.path.join(root, sid)
@@ -27,7 +28,7 @@ for sid, (prop, rel, needs, result) in sorted(SEEDS.items()):
                       "stable_baseline_tests_passing_with_patch": v["tests"],
                       "how": "tools/validate_seed.sh in a scratch worktree of /repo (private HOME; tests/test_cwl_loop.py serially)"},
         "check_result": result,
-        "ran": [f"tools/validate_seed.sh /work/seed/{rel}", f"tools/run_seed.sh /work/seed/{rel} {prop}"],
+        "ran": [f"tools/validate_seed.sh {base}/{rel}", f"tools/run_seed.sh {base}/{rel} {prop}"],
         "written_by": "independent sub-agent given only the property text and a scratch worktree of /repo",
     }
     json.dump(meta, open(os.path.join(dst, "meta.json"), "w"), indent=1)
